@@ -45,16 +45,37 @@ SCRIPTS = {
     # sessions of equal length asked for their results, an instance started with a partial timeout dictionary that then times out
     "F": [("start", None), ("begin-session", bs({"constants": {"k": 7.0}, "points": {"lk": [[0.0, 5.0], [8.0, 5.0]]}})), ("run-step", None), ("session-results", None), ("stop-instance", None)],
     "G": [("start", None), ("begin-session", bs(None)), ("run-step", None), ("session-results", None), ("flat-session-results", None)],
+    # started through the plural route: ONE /start-instances request creates the instances of both scripts of the pair
+    "F2": [("start-batch", None), ("begin-session", bs({"constants": {"k": 7.0}})), ("run-step", None), ("session-results", None), ("end-session", None)],
+    "G2": [("start-batch", None), ("begin-session", bs(None)), ("run-step", None), ("run-step", None), ("session-results", None)],
+    # short-lived instances on a server with a state adapter: timed out, then brought back by their next request
+    # (15 s: one advance of 10 s alone never expires them - they cannot be lost before their first step is saved -, two in a row do)
+    "J": [("start", {"timeout": {"seconds": 15}}), ("begin-session", bs({"constants": {"k": 6.0}})), ("run-step", None), ("advance", 10), ("run-step", None)],
+    "K": [("start", {"timeout": {"seconds": 15}}), ("begin-session", bs({"constants": {"k": 2.5}})), ("run-step", None), ("advance", 10), ("run-step", None)],
+    # many instances (size ladder): L works while M starts 60 more instances
+    "L": [("start", None), ("begin-session", bs({"constants": {"k": 7.0}})), ("run-step", None), ("run-step", st({"constants": {"k": 5.0}})), ("run-step", None)],
+    "M": [("start", None), ("start-many", 60), ("begin-session", bs(None)), ("run-step", None), ("session-results", None)],
     "H": [("start", {"timeout": {"seconds": 5}}), ("begin-session", bs({"constants": {"k": 6.0}, "points": {"lk": [[0.0, 4.0], [8.0, 4.0]]}})), ("advance", 10), ("sweep", None), ("run-step", None)],
 }
 
 
-def execute(order, names, n, shared=False):
+def execute(order, names, n, shared=False, adapter=False):
     """order: sequence of script names (one entry per request).  -> {name: [(status, body)]}
     shared: the factory registers ONE model object in every bptk object it builds (instead of a fresh model per instance)"""
     clock = srv.VClock().install()
+    sd = None
     try:
-        app, client = srv.make_server(srv.make_factory(0.0, 6.0, 1.0, shared_model=shared))
+        ad = None
+        if adapter:
+            import os
+            import shutil
+            from BPTK_Py.externalstateadapter import FileAdapter
+            sd = os.path.join(core.scratch_dir(), "c16_%d" % os.getpid())
+            shutil.rmtree(sd, ignore_errors=True)
+            os.makedirs(sd)
+            ad = FileAdapter(False, sd)
+        app, client = srv.make_server(srv.make_factory(0.0, 6.0, 1.0, shared_model=shared), adapter=ad)
+        batch = []
         # a short-lived bystander that the virtual-clock advance will time out
         bystander = srv.start_instance(client, timeout={"seconds": 5})
         pos = {nm: 0 for nm in names}
@@ -67,6 +88,19 @@ def execute(order, names, n, shared=False):
                 # any request makes the server look for timed-out instances; the body of this one lists all instances and is not compared
                 r = client.get("/full-metrics")
                 out[nm].append((r.status_code, "sweep"))
+                continue
+            if kind == "start-batch":
+                # the first of the pair to get here creates the instances of both with one request
+                if not batch:
+                    r = client.post("/start-instances", json={"instances": 2})
+                    batch.extend(srv.body(r)["instance_uuids"])
+                ids[nm] = batch.pop(0)
+                out[nm].append((200, "batch"))
+                continue
+            if kind == "start-many":
+                for _ in range(payload):
+                    client.post("/start-instance")
+                out[nm].append((200, "many"))
                 continue
             if kind == "start":
                 r = client.post("/start-instance") if payload is None else client.post("/start-instance", json=payload)
@@ -96,6 +130,9 @@ def execute(order, names, n, shared=False):
         return out
     finally:
         clock.uninstall()
+        if sd:
+            import shutil
+            shutil.rmtree(sd, ignore_errors=True)
 
 
 def merges(names, n):
@@ -116,11 +153,12 @@ def merges(names, n):
 
 def _work(arg):
     names, n, orders = arg[:3]
-    shared = len(arg) > 3 and arg[3]
-    solo = {nm: execute([nm] * n, [nm], n, shared)[nm] for nm in names}
+    shared = len(arg) > 3 and arg[3] is True
+    adapter = len(arg) > 3 and arg[3] == "adapter"
+    solo = {nm: execute([nm] * n, [nm], n, shared, adapter)[nm] for nm in names}
     # determinism: a solo replay twice gives the same responses
     viol = []
-    again = execute([names[0]] * n, [names[0]], n, shared)[names[0]]
+    again = execute([names[0]] * n, [names[0]], n, shared, adapter)[names[0]]
     if again != solo[names[0]]:
         # the same script on two *fresh servers* of one process answers differently: an instance sees what an instance of an earlier
         # server left behind in process-wide state of the library - it does not behave as if it were the only one
@@ -131,12 +169,12 @@ def _work(arg):
         return viol, 1
     distinct = set()
     for order in orders:
-        got = execute(order, names, n, shared)
+        got = execute(order, names, n, shared, adapter)
         distinct.add(json.dumps(got, sort_keys=True, default=str))
         for nm in names:
             if got[nm] != solo[nm]:
                 k = next(i for i, (x, y) in enumerate(zip(got[nm], solo[nm])) if x != y)
-                viol.append(("cross-talk%s/%s:%s" % ("/shared-model-factory" if shared else "", nm, SCRIPTS[nm][k][0]), {"names": list(names), "n": n, "order": order, "shared": shared},
+                viol.append(("cross-talk%s/%s:%s" % ("/shared-model-factory" if shared else "", nm, SCRIPTS[nm][k][0]), {"names": list(names), "n": n, "order": order, "shared": "adapter" if adapter else shared},
                              "instance %s request #%d (%s): merged run returned %r, alone it returns %r (other instance: %s)" % (
                                  nm, k, SCRIPTS[nm][k][0], str(got[nm][k])[:300], str(solo[nm][k])[:300], [x for x in names if x != nm])))
                 break
@@ -160,6 +198,10 @@ def run(ctx):
         nn = 5
         for part in core.chunks(list(merges(names, nn)), 8):
             jobs.append((names, nn, part, True))
+    # plural start route, many instances; time-out and restore on a server with a state adapter
+    for names, flag in ((("F2", "G2"), False), (("L", "M"), False), (("J", "K"), "adapter"), (("F", "J"), "adapter")):
+        for part in core.chunks(list(merges(names, 5)), 8):
+            jobs.append((names, 5, part, flag))
     if ctx.tier == "thorough":
         for names in (("A", "B", "C"), ("B", "D", "E"), ("F", "G", "H")):
             orders = list(merges(names, 3))
@@ -182,5 +224,6 @@ def run(ctx):
 
 
 def replay(case):
-    viol, _ = _work((tuple(case["names"]), case["n"], [case["order"]], bool(case.get("shared"))))
+    sh = case.get("shared")
+    viol, _ = _work((tuple(case["names"]), case["n"], [case["order"]], sh if sh == "adapter" else bool(sh)))
     return viol or None
